@@ -228,13 +228,13 @@ def m_len(I, args, kwargs):
             I.fact(z3.Length(v.t) < 2 ** 32)
         return I.wrap_int(z3.Length(v.t))
     if isinstance(v, STup):
-        return I.wrap_int(z3.Length(v.t))
+        return I.wrap_int(I.mk_len(v.t))
     if isinstance(v, Ref):
         c = I.cell(v)
         if isinstance(c, ListCell):
             if c.items is not None:
                 return len(c.items)
-            return I.wrap_int(z3.Length(c.t))
+            return I.wrap_int(I.mk_len(c.t))
         if isinstance(c, BACell):
             return I.wrap_int(z3.Length(c.t))
         if isinstance(c, DictCell):
@@ -556,7 +556,21 @@ def m_chr(I, args, kwargs):
 def m_any_all(which):
     def f(I, args, kwargs):
         v = args[0]
-        items = I.try_iter_concrete(v)
+        genexp = None
+        if isinstance(v, GenVal) and v.kind == 'genexp':
+            # any/all over `elt for target in seq` with a symbolic-length seq: the element expression
+            # is evaluated once under a bound index (it must be free of effects and exceptions)
+            gn, gfr = v.payload
+            if len(gn.generators) == 1 and not gn.generators[0].ifs:
+                saved_f = I.frame
+                I.frame = gfr
+                try:
+                    it0 = I.eval(gn.generators[0].iter)
+                finally:
+                    I.frame = saved_f
+                if I.try_iter_concrete(it0) is None:
+                    genexp = (gn, gfr, it0)
+        items = None if genexp else I.try_iter_concrete(v)
         if items is not None:
             if I.pure:
                 ts = []
@@ -576,9 +590,25 @@ def m_any_all(which):
         # symbolic-length sequence: truthiness of the elements under a quantifier
         try:
             from .gens import iteration_protocol
-            length, elem = iteration_protocol(I, v)
+            length, elem = iteration_protocol(I, genexp[2] if genexp else v)
         except OutOfReach:
             raise OutOfReach('%s over symbolic iterable' % which)
+        if genexp:
+            gn, gfr, _ = genexp
+            elem0 = elem
+
+            def elem(q):
+                sub = Frame({}, gfr.globs, parent=gfr, defcls=None, fname='<comp>')
+                saved_f = I.frame
+                I.frame = sub
+                try:
+                    I.st.pc.append(z3.And(q >= 0, q < length))
+                    I.assign_target(gn.generators[0].target, elem0(q))
+                    return I.eval(gn.elt)
+                except PyRaise:
+                    raise OutOfReach('%s over a generator expression whose element may raise' % which)
+                finally:
+                    I.frame = saved_f
         I.qdepth = getattr(I, 'qdepth', 0) + 1
         q = z3.Int('q%d_any' % I.qdepth)
         saved_pc, saved_seen = I.st.pc, I.facts_seen
@@ -1398,6 +1428,19 @@ def _(I, sv, args, kwargs):
         return sv.find(*args)
     t = I.seq_term(sv)
     sub = I.seq_term(args[0])
+    if isinstance(sv, str) and len(args) == 1 and 0 < len(sv) <= 64:
+        # concrete table: an uninterpreted function of the needle (sound, incomplete) which for a
+        # one-character needle equals a decision list over the character code
+        c = I.rw(I.mk_nth(sub, z3.IntVal(0)))
+        r = z3.IntVal(-1)
+        for k in range(len(sv) - 1, -1, -1):
+            if sv.find(sv[k]) == k:
+                r = z3.If(c == ord(sv[k]), z3.IntVal(k), r)
+        import hashlib as _h
+        app = ufun('find_in_' + _h.sha1(sv.encode()).hexdigest()[:8], SeqS, IntS)(I.rw(sub))
+        I.fact(z3.Implies(z3.Length(sub) == 1, app == r))
+        I.fact(z3.And(app >= -1, app < len(sv)))
+        return I.wrap_int(app)
     return I.wrap_int(z3.IndexOf(t, sub, z3.IntVal(0)))
 
 
